@@ -178,6 +178,9 @@ class StmtMixin:
     loop_bound = 64
 
     def ex_For(self, s):
+        spec_ = self.loop_spec(s)
+        if spec_ is not None:
+            return self.for_with_invariant(s, spec_)
         it = self.eval(s.iter)
         handler = self.special_for(s, it)
         if handler:
@@ -191,6 +194,83 @@ class StmtMixin:
             except ContinueSig:
                 continue
         self.exec_block(s.orelse)
+
+    def loop_spec(self, s):
+        fr = self.frames[-1]
+        C = getattr(self, 'current_contract', None)
+        if C is None or fr.fi is None or fr.fi.qualname != C.qualname or not C.loops:
+            return None
+        return C.loops.get(ast.unparse(s.iter))
+
+    def for_with_invariant(self, s, spec_):
+        """Inductive loop rule: the invariant holds on entry (obligation), then from an ARBITRARY state satisfying it
+        (loop frame havocked) either the iterable is exhausted -- the code after the loop runs -- or one more
+        iteration runs and must re-establish the invariant (obligation), which ends that path.  Exceptions that
+        leave the loop from the arbitrary iteration continue as ordinary paths (handlers, function exit)."""
+        fr = self.frames[-1]
+        spec_frame = self.frames[0]
+        it = self.eval(s.iter)
+
+        def inv_obligations(kind):
+            extra = dict(fr.locals)
+            for cl in spec_['invariant']:
+                goal = zbool(self.truth(self.spec_eval_in(spec_frame, cl.ast, extra)))
+                self.callsite_obligations.append(('%s:%s:%s' % (kind, label, cl.label), goal, cl.expr, cl.props))
+
+        label = 'loop[%s]' % ast.unparse(s.iter)
+        inv_obligations('invariant-entry')
+        for t in spec_['modifies']:
+            if callable(t):
+                t(self, fr.locals)
+            else:
+                self.havoc_in(spec_frame, t, fr.locals)
+        for name, desc in spec_['locals'].items():
+            fr.locals[name] = self.sym_value(desc, name)
+        for cl in spec_['invariant']:
+            self.assume_spec(zbool(self.truth(self.spec_eval_in(spec_frame, cl.ast, dict(fr.locals)))))
+            if self.check() == z3.unsat:
+                raise Unsupported('loop invariant is unsatisfiable in the arbitrary state (vacuous) at clause: %s' % cl.expr)
+        # next element of the (iterator-protocol) iterable
+        nxt = None
+        if isinstance(it, Ref) and isinstance(self.heap.get(it), Obj) and isinstance(self.heap.get(it).cls, extract.ClassInfo):
+            nxt = self.P.lookup_method(self.heap.get(it).cls, '__next__')
+        if nxt is None:
+            raise Unsupported('loop invariant rule needs an iterator-protocol iterable (%s)' % ast.unparse(s.iter))
+        try:
+            v = self.call_function(nxt, [it], {}, s)
+        except PyRaise as pr:
+            if self.exc_matches(pr.exc, ExternV('builtins.StopIteration')):
+                self.exec_block(s.orelse)
+                return                      # loop finished: continue after it from the arbitrary invariant state
+            raise
+        self.assign_target(s.target, v)
+        try:
+            self.exec_block(s.body)
+        except BreakSig:
+            return
+        except ContinueSig:
+            pass
+        inv_obligations('invariant-preserved')
+        raise PathEnd()
+
+    def spec_eval_in(self, frame, node, extra):
+        """spec_eval with `frame` as the evaluation frame (contract-level names) plus extra locals."""
+        self.frames.append(frame)
+        try:
+            return self.spec_eval(node, extra_locals=extra)
+        finally:
+            self.frames.pop()
+
+    def havoc_in(self, frame, target, extra):
+        self.frames.append(frame)
+        saved = dict(frame.locals)
+        frame.locals.update(extra)
+        try:
+            self.havoc(target, frame)
+        finally:
+            frame.locals.clear()
+            frame.locals.update(saved)
+            self.frames.pop()
 
     def special_for(self, s, it):
         """Loops over symbolic maps are handled by heapmodel (visited-set rule)."""
